@@ -12,9 +12,9 @@ PID = 'C10'
 LEVEL = 'model_checking'
 ENGINE = 'E2+E4'
 TECHNIQUE = 'stateless exploration of all operation histories up to depth d and explicit-state BFS to closure over real objects (full-state fingerprint, fresh-world differential oracle on every transition), plus exhaustive enumeration of thread interleavings at function-entry scheduling points up to a pre-emption bound under a cooperative scheduler'
-RULE = ('ops = {zero, fire, fire-extra, fire+danger-space, failing zero} x calculators {long-lived default K0, long-lived custom K1, fresh} x shots A..F (sharing weapons, '
+RULE = ('ops = {zero, fire, fire-extra, fire+danger-space, failing zero} x calculators {long-lived default K0, long-lived custom K1, fresh} x shots A..G (sharing weapons, '
         'ammunition, drag models, atmosphere and wind objects; C raises a range error, E cannot be zeroed) + construct ops (new calculators, multi-BC models from the '
-        'module-level table and from a live model\'s points, new atmosphere, new shot); history cells: every history of depth <= d (quick 2, thorough 3), the last transition of '
+        'module-level table and from a live model\'s points, new atmosphere, new shot) + in-place edits of argument objects between computations (wind until-distances swapped, segment appended to a shared list, muzzle velocity changed), for which the reference is a world BUILT from the edited values; history cells: every history of depth <= d (quick 2, thorough 3), the last transition of '
         'each is compared with the same op in a fresh world in which only the weapon zero elevations were replayed, and every argument object is snapshotted before/after; '
         'closure: BFS over the full-state fingerprint with a sub-alphabet whose state space is finite; chain: 200 repetitions of a 4-op cycle on long-lived calculators; '
         'schedule cells: bodies {fire||fire, fire||zero, fire||danger, zero||zero, fire||fire||fire} on shared ammo/atmo/winds, every schedule with <= p pre-emptions '
@@ -27,10 +27,11 @@ LEVEL_TEXT = ('History and schedule properties have no fixed expected value; eve
               'every schedule up to the pre-emption bound is compared with a fresh-world / solo run of the same operation on the real code.')
 
 CFG1 = {'max_calc_step_size_feet': 0.25, 'cGravityConstant': -30.0}
-SHOTS = 'ABCDEF'
+SHOTS = 'ABCDEFG'
 
 
-def world(z1=None, z2=None):
+def world(z1=None, z2=None, edits=()):
+    """edits: argument edits applied AT CONSTRUCTION (reference semantics); the live world applies the same edits in place afterwards"""
     import py_ballisticcalc as pb
     U = pb.Unit
     dmA = pb.DragModel(0.223, pb.TableG7, U.Grain(168), U.Inch(0.308), U.Inch(1.2))
@@ -43,15 +44,20 @@ def world(z1=None, z2=None):
     atm = pb.Atmo.icao(U.Foot(5000))
     ammoA = pb.Ammo(dmA, U.FPS(2750))
     windsA = [pb.Wind(U.MPH(10), U.Degree(90))]
+    if 'appendA' in edits:
+        windsA.append(pb.Wind(U.MPH(8), U.Degree(270), U.Yard(15)))
+    ub = (30, 10) if 'swapB' in edits else (10, 30)
+    dmC = pb.DragModel(0.3, pb.TableG7)        # no weight / dimensions: no spin drift whatever the barrel twist
     S = {'A': pb.Shot(W1, ammoA, winds=windsA),
          'B': pb.Shot(W2, pb.Ammo(dmB, U.FPS(2000)), look_angle=U.Degree(10), atmo=atm,
-                      winds=[pb.Wind(U.MPH(5), U.Degree(45), U.Yard(10)), pb.Wind(U.MPH(15), U.Degree(200), U.Yard(30))]),
+                      winds=[pb.Wind(U.MPH(5), U.Degree(45), U.Yard(ub[0])), pb.Wind(U.MPH(15), U.Degree(200), U.Yard(ub[1]))]),
          'C': pb.Shot(W1, pb.Ammo(dmA, U.FPS(100)), relative_angle=U.Degree(30)),    # raises RangeError
          'D': pb.Shot(W1, pb.Ammo(dmB, U.FPS(2400))),
          'E': pb.Shot(W2, pb.Ammo(dmA, U.FPS(30)), atmo=atm),                         # below the minimum velocity: cannot be zeroed
-         'F': pb.Shot(W2, ammoA, atmo=atm, winds=windsA)}                            # shares Ammo and the winds list with A
+         'F': pb.Shot(W2, ammoA, atmo=atm, winds=windsA),                            # shares Ammo and the winds list with A
+         'G': pb.Shot(W1, pb.Ammo(dmC, U.FPS(2600 if 'mvG' not in edits else 2400)))}  # bullet without dimensions from the twisted barrel W1
     K = {'K0': pb.Calculator(), 'K1': pb.Calculator(_config=dict(CFG1))}
-    return {'S': S, 'K': K, 'W1': W1, 'W2': W2, 'dmA': dmA, 'dmB': dmB, 'atm': atm}
+    return {'S': S, 'K': K, 'W1': W1, 'W2': W2, 'dmA': dmA, 'dmB': dmB, 'dmC': dmC, 'atm': atm, 'windsA': windsA, 'edits': set(edits)}
 
 
 def calc_for(w, k):
@@ -80,6 +86,19 @@ def run(op, w):
             r = calc_for(w, op[1]).fire(w['S'][op[2]], U.Yard(40), U.Yard(1), True)
             d = r.danger_space(U.Yard(20), U.Inch(5))
             return ['ok', bits(d.begin.distance.raw_value), bits(d.end.distance.raw_value)]
+        if kind == 'edit':
+            # the caller edits an argument object in place between computations
+            if op[1] in w['edits']:
+                return ['ok', 'already']
+            if op[1] == 'swapB':
+                a, b = w['S']['B']._winds
+                a.until_distance, b.until_distance = b.until_distance, a.until_distance
+            elif op[1] == 'appendA':
+                w['windsA'].append(pb.Wind(U.MPH(8), U.Degree(270), U.Yard(15)))
+            elif op[1] == 'mvG':
+                w['S']['G'].ammo.mv = U.FPS(2400)
+            w['edits'].add(op[1])
+            return ['ok', op[1]]
         if kind == 'new_calc':
             w['K'][op[1]] = pb.Calculator() if op[1] == 'K0' else pb.Calculator(_config=dict(CFG1))
             return ['ok', H.digest(H.fp(w['K'][op[1]]))]
@@ -103,9 +122,10 @@ def run(op, w):
 
 
 def all_ops():
-    ops = [[kind, k, s] for kind in ('zero', 'fire', 'firex', 'danger') for k in ('K0', 'K1', 'fresh') for s in 'ABCDF']
+    ops = [[kind, k, s] for kind in ('zero', 'fire', 'firex', 'danger') for k in ('K0', 'K1', 'fresh') for s in 'ABCDFG']
     ops += [['zerofar', k, 'E'] for k in ('K0', 'K1', 'fresh')]
-    ops += [['new_calc', 'K0'], ['new_calc', 'K1'], ['new_multibc'], ['new_multibc_from', 'A'], ['new_multibc_from', 'B'], ['new_atmo'], ['new_shot', 'D']]
+    ops += [['new_calc', 'K0'], ['new_calc', 'K1'], ['new_multibc'], ['new_multibc_from', 'A'], ['new_multibc_from', 'B'], ['new_atmo'], ['new_shot', 'D'],
+            ['edit', 'swapB'], ['edit', 'appendA'], ['edit', 'mvG']]
     return ops
 
 
@@ -113,10 +133,10 @@ REF_OF = {'K0': 'fresh', 'K1': 'fresh1', 'fresh': 'fresh', 'fresh1': 'fresh1'}
 _MEMO = {}
 
 
-def reference(op, z1, z2, swapped_d):
-    key = (tuple(op), None if z1 is None else bits(z1), None if z2 is None else bits(z2), swapped_d)
+def reference(op, z1, z2, swapped_d, edits=()):
+    key = (tuple(op), None if z1 is None else bits(z1), None if z2 is None else bits(z2), swapped_d, tuple(sorted(edits)))
     if key not in _MEMO:
-        w = world(z1, z2)
+        w = world(z1, z2, tuple(sorted(edits)))
         if swapped_d:
             run(['new_shot', 'D'], w)
         rop = list(op)
@@ -129,7 +149,7 @@ def reference(op, z1, z2, swapped_d):
 def snapshot(w):
     """magnitudes and non-quantity fields of every argument object (display units dropped), zero elevations kept apart"""
     snap = {}
-    for name in ('dmA', 'dmB', 'atm'):
+    for name in ('dmA', 'dmB', 'dmC', 'atm'):
         snap[name] = H.fp(w[name], display=False)
     for wn in ('W1', 'W2'):
         wp = w[wn]
@@ -163,8 +183,9 @@ def transition(w, op, label, swapped_d):
     z2 = w['W2'].zero_elevation.raw_value
     before = snapshot(w)
     g_before = global0()
+    edits_before = tuple(sorted(w['edits']))
     got = run(op, w)
-    exp = reference(op, z1, z2, swapped_d)
+    exp = reference(op, z1, z2, swapped_d, edits_before)
     out = []
     if got != exp:
         out.append(f'{label}: result of {op} differs from the same operation in a fresh world (same weapon zero elevations) [{got[0]} vs {exp[0]}]')
@@ -174,6 +195,8 @@ def transition(w, op, label, swapped_d):
         allowed.add(before['shot' + op[2] + '.weapon'] + '.zero')
     if op[0] == 'new_shot':
         allowed.add('shot' + op[1])
+    if op[0] == 'edit':
+        allowed |= {'shotA', 'shotB', 'shotF', 'shotG'}
     for k in before:
         if before[k] != after.get(k) and k not in allowed:
             out.append(f'{label}: operation {op} changed {k} of the objects passed in')
@@ -190,7 +213,7 @@ def shares(ops):
     """do the ops of a history touch a common object (weapon, ammo, drag model, calculator)?"""
     objs = []
     groups = {'A': {'W1', 'dmA', 'ammoA', 'windsA'}, 'B': {'W2', 'dmB', 'atm'}, 'C': {'W1', 'dmA'}, 'D': {'W1', 'dmB'}, 'E': {'W2', 'dmA', 'atm'},
-              'F': {'W2', 'ammoA', 'dmA', 'atm', 'windsA'}}
+              'F': {'W2', 'ammoA', 'dmA', 'atm', 'windsA'}, 'G': {'W1', 'dmC'}, 'swapB': {'W2', 'dmB', 'atm'}, 'appendA': {'windsA'}, 'mvG': {'dmC'}}
     for op in ops:
         s = set()
         for x in op[1:]:
@@ -256,22 +279,25 @@ def chain(cell):
 
 
 # ---- closure ------------------------------------------------------------------------------------------------------------
-def closure_ops():
+def closure_ops(alpha='small'):
     """sub-alphabet with a finite state space: each weapon is zeroed through one (calculator, shot) pair only"""
+    shots = 'ABCDF' if alpha == 'small' else 'ABCDFG'
     ops = [['zero', 'K0', 'A'], ['zero', 'K1', 'B']]
-    ops += [[kind, k, s] for kind in ('fire', 'firex') for k in ('K0', 'K1') for s in 'ABCDF']
+    ops += [[kind, k, s] for kind in ('fire', 'firex') for k in ('K0', 'K1') for s in shots]
     ops += [['danger', 'K0', 'A'], ['danger', 'K1', 'F'], ['zerofar', 'K0', 'E'], ['new_calc', 'K0'], ['new_multibc_from', 'A'], ['new_shot', 'D']]
+    if alpha != 'small':
+        ops += [['edit', 'swapB']]
     return ops
 
 
 def state_fp(w):
-    return H.digest((H.fp(w['K']), H.fp(w['S']), H.fp((w['W1'], w['W2'])), H.global_fp()))
+    return H.digest((H.fp(w['K']), H.fp(w['S']), H.fp((w['W1'], w['W2'])), sorted(w['edits']), H.global_fp()))
 
 
 def expand(cell):
     """expand one state (given by a history that reaches it): apply every op of the closure alphabet to a fresh replay"""
-    history = cell
-    ops = closure_ops()
+    alpha, history = cell
+    ops = closure_ops(alpha)
     out = []
     succ = []
     for i, op in enumerate(ops):
@@ -286,7 +312,7 @@ def expand(cell):
             if len(out) < 3:
                 out.append({'msg': m, 'key': None})
         succ.append([i, state_fp(w)])
-    return {'v': out, 'n': len(ops), 'transitions': len(ops), 'traces': len(ops), 'succ': succ, 'nt': cell if len(history) >= 2 else None}
+    return {'v': out, 'n': len(ops), 'transitions': len(ops), 'traces': len(ops), 'succ': succ, 'nt': [alpha, history] if len(history) >= 2 else None}
 
 
 PARTS = {'histories': histories, 'chain': chain, 'expand': expand}
@@ -301,11 +327,12 @@ def explore(ctx):
     cap_states = 2000 if ctx.tier == 'quick' else 50000
     cap_s = 60 if ctx.tier == 'quick' else 1500
     t0 = time.time()
+    alpha = 'small' if ctx.tier == 'quick' else 'large'
     seen = {state_fp(world()): []}
     frontier = [[]]
     depth = 0
     while frontier:
-        res = ctx.run_part('expand', frontier)
+        res = ctx.run_part('expand', [[alpha, h] for h in frontier])
         nxt = []
         for hist_, r in zip(frontier, res):
             for i, s in r.get('succ', []):
